@@ -60,7 +60,7 @@ def h_huber(E):
     az = lambda i: zr(a.at(i))  # noqa: E731
     rz = lambda i: zr(r.at(i))  # noqa: E731
     d = delta.z
-    E.oblige("canary.huber", Sym(rz(z3.IntVal(0)) == 0), assume_after=False)
+    E.oblige("canary.huber", Sym(rz(z3.IntVal(0)) == 1), assume_after=False)
     E.st.oblige_forall("huber.quadratic_within_delta", [INT], lambda i: z3.Implies(z3.And(inb(i, n), az(i) <= d), rz(i) == az(i) * az(i) / 2), hint="i")
     E.st.oblige_forall("huber.linear_beyond_delta", [INT], lambda i: z3.Implies(z3.And(inb(i, n), az(i) > d), rz(i) == d * (az(i) - d / 2)), hint="i")
 
@@ -70,7 +70,7 @@ def h_huber_scalar(E):
     delta = E.real("delta")
     E.assume(delta > 0)
     r = E.call(BL + "losses.huber_loss", a, delta)
-    E.oblige("canary.huber", r == 0, assume_after=False)
+    E.oblige("canary.huber", r == 1, assume_after=False)
     E.oblige("huber.scalar.quadratic_within_delta", implies(a <= delta, r == a * a / 2))
     E.oblige("huber.scalar.linear_beyond_delta", implies(a > delta, r == delta * (a - delta / 2)))
 
@@ -82,10 +82,15 @@ def _masked_inputs(E, shape, N, tag=""):
     return p, t
 
 
-def h_mse_rank2(E):
+def mk_mse_rank2(n_fixed=None, d_fixed=None):
+    return lambda E: h_mse_rank2(E, n_fixed, d_fixed)
+
+
+def h_mse_rank2(E, n_fixed=None, d_fixed=None):
     """(N, D) predictions/targets, (N,) mask:
     loss == (1/(N D)) sum_{i,d} (p_id - t_id)^2 m_i; masked rows weigh nothing"""
-    N, D = E.dim("N", 1), E.dim("D", 1)
+    N = E.dim("N") if n_fixed is None else n_fixed
+    D = E.dim("D") if d_fixed is None else d_fixed
     p, t = _masked_inputs(E, (N, D), N)
     m = T.fresh_tensor("mask", (N,), REAL)
     loss = E.call(BL + "losses.masked_mse_loss", p, t, m)
@@ -93,7 +98,7 @@ def h_mse_rank2(E):
         E.st.fail("masked_mse.scalar", f"loss has shape {loss.shape}")
         return
     E.st.ok("masked_mse.scalar")
-    E.oblige("canary.mse", C.compare("==", loss, 0), assume_after=False)
+    E.oblige("canary.mse", C.compare("==", loss, 1), assume_after=False)
     spec = T.Tensor((N, D), lambda i, d: (p.at(i, d) - t.at(i, d)) * (p.at(i, d) - t.at(i, d)) * m.at(i), REAL)
     total = T.reduce(T.reduce(spec, "sum", 1), "sum", 0)
     E.oblige("masked_mse.formula", C.compare("==", loss, C.binop("/", total, C.binop("*", N, D))))
@@ -121,7 +126,7 @@ def h_mse_rank1(E):
     if isinstance(loss, T.Tensor):
         E.st.fail("masked_mse[rank1].formula_or_rejection", f"loss has shape {loss.shape}")
         return
-    E.oblige("canary.mse1", C.compare("==", loss, 0), assume_after=False)
+    E.oblige("canary.mse1", C.compare("==", loss, 1), assume_after=False)
     spec = T.Tensor((N,), lambda i: (p.at(i) - t.at(i)) * (p.at(i) - t.at(i)) * m.at(i), REAL)
     total = T.reduce(spec, "sum", 0)
     E.oblige("masked_mse[rank1].formula_or_rejection", C.compare("==", loss, C.binop("/", total, N)), assume_after=False)
@@ -132,10 +137,10 @@ def h_mse_rank1(E):
 
 
 # ---------------------------------------------------------------- AvgL1Norm
-def mk_avg_l1(rank):
+def mk_avg_l1(rank, n_fixed=None, d_fixed=None):
     def h(E):
-        D = E.dim("D", 1)
-        shape = (D,) if rank == 1 else (E.dim("N", 1), D)
+        D = (E.dim("D", 1) if rank == 1 else E.dim("D")) if d_fixed is None else d_fixed
+        shape = (D,) if rank == 1 else ((E.dim("N") if n_fixed is None else n_fixed), D)
         k = rank - 1
         x = T.fresh_tensor("x", shape, REAL)
         eps = E.real("eps")
@@ -143,7 +148,7 @@ def mk_avg_l1(rank):
         out = E.call(BL + "function_approximator.norm.avg_l1_norm", x, eps)
         if not shape_is(E, "avg_l1.shape", out, *shape):
             return
-        E.oblige("canary.avg_l1", Sym(zr(out.at(*([0] * rank))) == zr(x.at(*([0] * rank)))), assume_after=False)
+        E.oblige("canary.avg_l1", Sym(zr(out.at(*([0] * rank))) == zr(x.at(*([0] * rank))) + 1), assume_after=False)
         guard = (lambda *ps: z3.And(*[inb(q, shape[a]) for a, q in enumerate(ps)])) if k else None
         g = lambda ps: guard(*ps) if k else z3.BoolVal(True)  # noqa: E731
         sx, node_x = XN.spec_sum(E.st, T.tabs(x), k)      # sum_d |x_d|
@@ -178,7 +183,7 @@ def h_schedule(E):
     k = z3.ToInt(z3.ToReal(total.z) * fraction.z)  # floor(total * fraction), the length of the transition
     sz = lambda t: zr(s.at(t))  # noqa: E731
     E.st.add_pool(k, k - 1, z3.IntVal(0))
-    E.oblige("canary.schedule", Sym(sz(z3.IntVal(0)) == end.z), assume_after=False)
+    E.oblige("canary.schedule", Sym(sz(z3.IntVal(0)) == start.z + 1), assume_after=False)
     E.st.oblige_forall("schedule.end_value_after_transition", [INT], lambda t: z3.Implies(z3.And(t >= k, t < total.z), sz(t) == end.z), hint="t")
     E.oblige("schedule.starts_at_start", Sym(z3.Implies(k >= 1, sz(z3.IntVal(0)) == start.z)))
     E.st.oblige_forall("schedule.monotone", [INT], lambda t: z3.Implies(
@@ -241,10 +246,9 @@ def mk_two_hot(wide=False, n_fixed=None):
         E.st.assume(inb(r0, B))
         x0 = zr(x.at(r0))
         E.st.add_pool(r0, z3.IntVal(0), nz - 1, nz - 2)
-        E.oblige("canary.two_hot", Sym(tz(r0, z3.IntVal(0)) == 0), assume_after=False, using=H)
+        E.oblige("canary.two_hot", Sym(tz(r0, z3.IntVal(0)) == 7), assume_after=False, using=H)
         if isinstance(n, int):
-            U = H  # concrete bin count (counterexample confirmation): reductions are unrolled exactly
-            node1 = None
+            U = H  # concrete bin count (counterexample confirmation / bounded stand-in): reductions are unrolled exactly
         elif lo is None:
             E.st.undecided("two_hot.lemma.lower_edge_brackets_value", "no arg-min node in the trace of two_hot_encoding: no witness for the support positions")
             return
@@ -278,7 +282,7 @@ def mk_two_hot(wide=False, n_fixed=None):
             z3.And(inb(e, n), x0 == bz(e), inb(j, n)), tz(r0, j) == z3.If(j == e, z3.RealVal(1), z3.RealVal(0))), hint="j", using=U + ["bins."])
         if all(r.verdict == "discharged" for r in E.st.results if "canary" not in r.name):
             # the lemma conclusions assumed above are consistent (only meaningful when nothing failed on this path)
-            E.oblige("canary.two_hot_end", Sym(tz(r0, z3.IntVal(1)) == 0), assume_after=False, using=U)
+            E.oblige("canary.two_hot_end", Sym(tz(r0, z3.IntVal(1)) == 7), assume_after=False, using=U)
     return h
 
 
@@ -305,7 +309,7 @@ def h_two_hot_ce(E):
     ce = E.call(PRE + "two_hot_cross_entropy_loss", b, logits, y)
     if not shape_is(E, "cross_entropy.shape", ce, B):
         return
-    E.oblige("canary.ce", Sym(zr(ce.at(0)) == 0), assume_after=False)
+    E.oblige("canary.ce", Sym(zr(ce.at(0)) == 1), assume_after=False)
     calls = E.st.ghost.get("two_hot_calls", [])
     if len(calls) == 1 and calls[0][0] is b and calls[0][1] is y:
         E.st.ok("cross_entropy.target_is_two_hot_encoding_of_target_values")
@@ -327,19 +331,24 @@ def h_make_bins(E):
     if not shape_is(E, "make_bins.length", b, n):
         return
     bz = lambda j: zr(b.at(j))  # noqa: E731
-    E.oblige("canary.bins", Sym(bz(z3.IntVal(0)) == 0), assume_after=False)
+    E.oblige("canary.bins", Sym(bz(z3.IntVal(0)) == 1), assume_after=False)
     E.st.oblige_forall("make_bins.strictly_increasing", [INT, INT], lambda j, k: z3.Implies(z3.And(j >= 0, j < k, k < C.to_z3(n)), bz(j) < bz(k)), hint="j")
 
 
 TASKS = [
     Task("huber_loss", h_huber),
     Task("huber_loss[scalar]", h_huber_scalar),
-    Task("masked_mse_loss", h_mse_rank2),
+    Task("masked_mse_loss", mk_mse_rank2()),
+    Task("masked_mse_loss[one-feature]", mk_mse_rank2(d_fixed=1)),
+    Task("masked_mse_loss[one-sample]", mk_mse_rank2(n_fixed=1)),
     Task("masked_mse_loss[rank1]", h_mse_rank1),
     Task("avg_l1_norm", mk_avg_l1(1)),
     Task("avg_l1_norm[batch]", mk_avg_l1(2)),
+    Task("avg_l1_norm[batch,one-feature]", mk_avg_l1(2, d_fixed=1)),
+    Task("avg_l1_norm[batch,one-sample]", mk_avg_l1(2, n_fixed=1)),
     Task("linear_schedule", h_schedule),
     Task("two_hot_encoding", mk_two_hot()),
+    Task("two_hot_encoding[4-bins]", mk_two_hot(n_fixed=4), bounded="n_bins == 4, n_samples == 1 (exact counterexamples; the unbounded proof is task two_hot_encoding)"),
     Task("two_hot_encoding[any-range,3-bins]", mk_two_hot(wide=True, n_fixed=3), bounded="n_bins == 3, n_samples == 1 (exhibits the range limit; see ASSUMPTIONS)"),
     Task("two_hot_cross_entropy_loss", h_two_hot_ce, setup=_stub_encoding),
     Task("make_two_hot_bins", h_make_bins),
@@ -354,12 +363,23 @@ TRUSTED = [
 ASSUMPTIONS = [
     "reals for floats (no float32 absorption in diff - 1e8*(sign(diff)-1), no rounding at bin edges)",
     "bins strictly increasing (pairwise), n_bins >= 2, every encoded value inside [b_0, b_{n-1}]",
-    "two_hot_encoding: b_{n-1} - b_0 < 1e8, the sentinel the code adds to non-positive differences",
+    "two_hot_encoding (proved tasks): b_{n-1} - b_0 < 1e8, the sentinel the code adds to non-positive differences; "
+    "the property's unrestricted quantifier ('all exponent ranges') is what task two_hot_encoding[any-range,3-bins] checks - it FAILS (finding: "
+    "rows become nan/-inf once the bin range reaches 1e8, e.g. make_two_hot_bins(-20, 20))",
     "huber_loss: abs_errors >= 0 (it is |e|), delta > 0; avg_l1_norm: eps > 0",
     "linear_schedule: total_timesteps >= 1, fraction in (0, 1]",
     "masked_mse_loss[rank1]: mask entries in {0, 1} (documented)",
 ]
 NOT_COVERED = [
     "float32 rounding: values closer to a bin edge than float resolution, exp overflow for exponents > 88",
+    "that the default make_two_hot_bins(-10, 10) range (2(e^10 - 1) ~ 44 051) is below the 1e8 sentinel: needs a numeric upper bound on exp(10), not part of the exp axioms",
+    "call sites of masked_mse_loss with rank-1 predictions (model_based_encoder_loss: reward / done losses) belong to C03",
 ]
+EXPLANATION = (
+    "One task per function and shape scenario; symbolic lengths (n_bins >= 2, n_samples, N, D, total_timesteps). "
+    "two_hot_encoding: the arg-min contract of jnp.argmin gives the bracketing edge b_lo <= x <= b_lo+1 (obligation "
+    "two_hot.lemma.lower_edge_brackets_value), the row is then zero outside {lo, lo+1} and rule sum_two_point_support turns the "
+    "uninterpreted sums into (1-w) + w and (1-w) b_lo + w b_lo+1. avg_l1_norm uses rule sum_scale. Failing by design of the property: "
+    "masked_mse_loss[rank1] (mask[:, newaxis] broadcasts rank-1 predictions to (N, N)) and two_hot_encoding[any-range,3-bins]."
+)
 REPLAY = {"": "c18_numeric"}
